@@ -1,4 +1,5 @@
 import MdsVerif.Model.Mapset
+import MdsVerif.GenFact
 import MdsVerif.Spec.MathSet
 import Mathlib.Data.List.Nodup
 import Mathlib.Data.List.Perm.Subperm
@@ -176,42 +177,40 @@ theorem any_has_iff (l : List α) (t : MSet α) : l.any (has t) = true ↔ ∃ x
 
 `Model.Mapset` takes the size tests of `Intersects`, `HasAll`, `HasAny`, `IsSubset`, `Equals` from
 `Gen.Mapset` (regenerated from mapset.go on every run); the proofs unfold these five functions only
-through the lemmas below, which stop compiling when one of the tests changes. -/
+through the lemmas below, which stop compiling when one of the tests changes its value for some sizes (not when
+it is merely respelled). -/
 section defs
 open MdsVerif
 
-private theorem dec_gt (a b : Nat) : (decide ((a : Int) > (b : Int)) = true) = (a > b) := by
-  rw [decide_eq_true_eq]; apply propext; omega
-private theorem dec_eq0 (a : Nat) : (decide ((a : Int) = 0) = true) = (a = 0) := by
-  rw [decide_eq_true_eq]; apply propext; omega
-private theorem dec_ne (a b : Nat) : (decide ((a : Int) ≠ (b : Int)) = true) = (a ≠ b) := by
-  rw [decide_eq_true_eq]; apply propext; omega
+/-! the regenerated tests as functions of the (natural-number) sizes — proved extensionally (`gen_fact`), so
+`len(s) == 0` and `len(s) < 1`, `len(s) > len(t)` and `len(t) < len(s)` all satisfy them -/
+private theorem f_swaps (a b : Nat) : (Gen.Mapset.intersectsSwaps a b = true) = (a > b) := by gen_fact Gen.Mapset.intersectsSwaps
+private theorem f_allEmpty (a : Nat) : (Gen.Mapset.hasAllEmpty a = true) = (a = 0) := by gen_fact Gen.Mapset.hasAllEmpty
+private theorem f_allResult (a : Nat) : Gen.Mapset.hasAllEmptyResult a = (a == 0) := by gen_fact Gen.Mapset.hasAllEmptyResult
+private theorem f_anyEmpty (a : Nat) : (Gen.Mapset.hasAnyEmpty a = true) = (a = 0) := by gen_fact Gen.Mapset.hasAnyEmpty
+private theorem f_subEmpty (a : Nat) : (Gen.Mapset.isSubsetEmpty a = true) = (a = 0) := by gen_fact Gen.Mapset.isSubsetEmpty
+private theorem f_subTooBig (a b : Nat) : (Gen.Mapset.isSubsetTooBig a b = true) = (a > b) := by gen_fact Gen.Mapset.isSubsetTooBig
+private theorem f_differ (a b : Nat) : (Gen.Mapset.equalsDiffer a b = true) = (a ≠ b) := by gen_fact Gen.Mapset.equalsDiffer
 
 theorem intersects_def (s t : MSet α) :
     intersects s t = (let (lo, hi) := if len s > len t then (t, s) else (s, t); (elems lo).any (has hi)) := by
-  unfold intersects Gen.Mapset.intersectsSwaps; simp only [dec_gt]
+  unfold intersects; simp only [f_swaps]
 
 theorem hasAll_def (s : MSet α) (ts : List α) :
     hasAll s ts = if len s = 0 then ts.length == 0 else ts.all (has s) := by
-  unfold hasAll Gen.Mapset.hasAllEmpty Gen.Mapset.hasAllEmptyResult
-  simp only [dec_eq0]
-  split
-  · cases ts with
-    | nil => rfl
-    | cons a l => simp; omega
-  · rfl
+  unfold hasAll; simp only [f_allEmpty, f_allResult]
 
 theorem hasAny_def (s : MSet α) (ts : List α) :
     hasAny s ts = if len s = 0 then false else ts.any (has s) := by
-  unfold hasAny Gen.Mapset.hasAnyEmpty; simp only [dec_eq0]
+  unfold hasAny; simp only [f_anyEmpty]
 
 theorem isSubset_def (s t : MSet α) :
     isSubset s t = if len s = 0 then true else if len s > len t then false else (elems s).all (has t) := by
-  unfold isSubset Gen.Mapset.isSubsetEmpty Gen.Mapset.isSubsetTooBig; simp only [dec_eq0, dec_gt]
+  unfold isSubset; simp only [f_subEmpty, f_subTooBig]
 
 theorem equals_def (s t : MSet α) :
     equals s t = if len s ≠ len t then false else (elems s).all (has t) := by
-  unfold equals Gen.Mapset.equalsDiffer; simp only [dec_ne]
+  unfold equals; simp only [f_differ]
 end defs
 
 theorem all_has_iff (l : List α) (t : MSet α) : l.all (has t) = true ↔ ∀ x, x ∈ l → x ∈ elems t := by
